@@ -167,7 +167,11 @@ _allty = lambda sq_: L.FA(_i, z3.Implies(z3.And(0 <= _i, _i < L.len_(sq_)), _ty(
 ax("wf-intro-Tuple", L.FA(_sq, z3.Implies(_allty(_sq), wf_rw(TY.Tuple_(_sq))), [TY.Tuple_(_sq)]))
 ax("wf-intro-Union", L.FA(_sq, z3.Implies(z3.And(L.len_(_sq) >= 1, _allty(_sq)), _ty(TY.Union_(_sq))), [TY.Union_(_sq)]))
 _allf = lambda d_: L.FA(_k, z3.Implies(L.has(d_, _k), _ty(L.get(d_, _k))), [L.get(d_, _k)])
-ax("wf-intro-TD", L.FA([_a, _b], z3.Implies(z3.And(_allf(_a), _allf(_b)), wf_rw(TY.TD_(_a, _b))), [TY.TD_(_a, _b)]))
+_disj = lambda a_, b_: L.FA(_k, z3.Not(z3.And(L.has(a_, _k), L.has(b_, _k))), [L.has(a_, _k)])
+ax("wf-intro-TD", L.FA([_a, _b], z3.Implies(z3.And(_allf(_a), _allf(_b), _disj(_a, _b), L.is_dictlike(_a), L.is_dictlike(_b)), wf_rw(TY.TD_(_a, _b))), [TY.TD_(_a, _b)]))
+ax("wf-rw-td-dictlike", L.FA(_t, z3.Implies(z3.And(wf_rw(_t), TY.kind(_t) == TY.K["TD"]), z3.And(L.is_dictlike(TY.td_req(_t)), L.is_dictlike(TY.td_opt(_t)))), [wf_rw(_t), TY.td_req(_t)]))
+ax("wf-rw-td-disjoint", L.FA([_t, _k], z3.Implies(z3.And(wf_rw(_t), TY.kind(_t) == TY.K["TD"], L.has(TY.td_req(_t), _k)), z3.Not(L.has(TY.td_opt(_t), _k))),
+                             [(wf_rw(_t), L.has(TY.td_req(_t), _k))]))
 ax("empty-dict-no-keys", L.FA(_k, z3.Not(L.has(L.EMPTY_DICT, _k)), [L.has(L.EMPTY_DICT, _k)]))
 # derived from wf-rw-td + values-nth (stated for the values() view the rewriters iterate)
 ax("wf-rw-td-values-req", L.FA([_t, _i], z3.Implies(z3.And(wf_rw(_t), TY.kind(_t) == TY.K["TD"], 0 <= _i, _i < L.len_(TY.td_req(_t))),
